@@ -36,6 +36,13 @@ type DeadEnder interface {
 	OnDeadEnd(x *Ctx, s *St)
 }
 
+// ExtraOpser is implemented by visitors that want more operations tried at a
+// state than the expected alphabet: those that are accepted become
+// transitions of the explored graph, refusals are ignored.
+type ExtraOpser interface {
+	ExtraOps(x *Ctx, s *St) []Op
+}
+
 // Base is a Visitor that does nothing.
 type Base struct{}
 
@@ -316,9 +323,17 @@ func (r *Run) Explore() {
 				}
 			}
 		}()
-		for _, op := range Alphabet(cfg, s.GS) {
+		alphabet := Alphabet(cfg, s.GS)
+		nExpected := len(alphabet)
+		if eo, ok := r.Vis.(ExtraOpser); ok {
+			alphabet = append(alphabet, eo.ExtraOps(x, s)...)
+		}
+		for opi, op := range alphabet {
 			g := x.Fresh(s)
 			err, p := Apply(g, op)
+			if opi >= nExpected && (err != nil || p != "") {
+				continue // an extra operation that is refused is nobody's business here
+			}
 			post := g.GetState()
 			normalise(post)
 			if p != "" {
